@@ -199,8 +199,11 @@ func yaccParse(src []byte, file *SourceFile, intern *stringIntern) (*Ast, error)
 	if result, info := yaccParseAny(src, file, intern); result != 0 {
 		return nil, &info // return lex on error to provide loc and token info
 	} else if info.info.exp != nil {
-		return info.info.global, errors.New(
-			"Expected: includes or stage or pipeline or call.")
+		return info.info.global, &wrapError{
+			innerError: errors.New(
+				"Expected: includes or stage or pipeline or call."),
+			loc: SourceLoc{Line: 1, Col: 1, File: file},
+		}
 	} else {
 		return info.info.global, nil // success
 	}
@@ -211,7 +214,10 @@ func parseExp(src []byte, file *SourceFile, intern *stringIntern) (ValExp, error
 	if result, info := yaccParseAny(src, file, intern); result != 0 {
 		return nil, &info // return lex on error to provide loc and token info
 	} else if info.info.exp == nil {
-		return nil, errors.New("Expected: expression, got mro instead")
+		return nil, &wrapError{
+			innerError: errors.New("Expected: expression, got mro instead"),
+			loc:        SourceLoc{Line: 1, Col: 1, File: file},
+		}
 	} else {
 		return info.info.exp, nil
 	}
